@@ -137,7 +137,7 @@ impl Worker {
                     continue;
                 }
                 Err(RecvTimeoutError::Timeout) if !left.is_zero() && left > Duration::from_millis(1000) => {
-                    if self.last_phase.starts_with("call") {
+                    if self.last_phase.starts_with("call") || self.last_phase.starts_with("await") {
                         if let (Some(a), Some(b)) = (phase_cpu0, cpu_seconds(pid)) {
                             if b - a >= SPIN_CPU_S {
                                 let _ = self.child.kill();
